@@ -17,26 +17,24 @@ extern const char g_dtor_tag_QueuedEvent;
 #define SRC_ASSERT(e) __CPROVER_assert(!SLOT_IS_W(self) || (e), "assert() in the source (eventqueue_i.h) holds")
 
 /* placement new of the payload into a slot buffer: ghost: constructed, remembers the enqueued argument value */
+#define PN_K(k) if (p == (void *)&g_S[k].buffer) { \
+      __CPROVER_assert(!g_cons[k], "payload lifetime: no construction over a live payload (would leak it)"); \
+      g_cons[k] = 1; g_argid[k] = v.arguments.a0.id; g_disp[k] = 0; g_taken[k] = 0; }
 static inline void placement_new_QueuedEvent(void *p, QueuedEvent v)
 {
   *(QueuedEvent *)p = v;
-  for (int k = 0; k < 2; k++)
-    if (p == (void *)&g_S[k].buffer) {
-      __CPROVER_assert(!g_cons[k], "payload lifetime: no construction over a live payload (would leak it)");
-      g_cons[k] = 1; g_argid[k] = v.arguments.a0.id; g_disp[k] = 0; g_taken[k] = 0;
-    }
+  PN_K(0) PN_K(1)
 }
 #define PLACEMENT_NEW(T, p, v) placement_new_##T(p, v)
 /* call through the stored destructor pointer: must be the tag of the stored type; ghost: destroyed exactly once */
+#define FD_K(k) if (p == (void *)&g_S[k].buffer) { \
+      __CPROVER_assert(f == FN_TAG(commonDtor, QueuedEvent), "destructor pointer is the one of the stored type"); \
+      __CPROVER_assert(g_cons[k], "payload lifetime: destroyed exactly once (double destruction)"); \
+      g_cons[k] = 0; \
+      g_S[k].buffer.arguments.a0.id = nondet_int();   /* reading a destroyed payload yields garbage */ }
 static inline void fnptr_call_dtor(DtorTag f, void *p)
 {
-  __CPROVER_assert(f == FN_TAG(commonDtor, QueuedEvent), "destructor pointer is the one of the stored type");
-  for (int k = 0; k < 2; k++)
-    if (p == (void *)&g_S[k].buffer) {
-      __CPROVER_assert(g_cons[k], "payload lifetime: destroyed exactly once (double destruction)");
-      g_cons[k] = 0;
-      g_S[k].buffer.arguments.a0.id = nondet_int();   /* reading a destroyed payload yields garbage */
-    }
+  FD_K(0) FD_K(1)
 }
 #define FNPTR_CALL(f, p) fnptr_call_dtor(f, p)
 #define QueuedEvent_DEFAULT() ((QueuedEvent){0})
@@ -68,10 +66,9 @@ extern WList *g_rm_list; extern long g_rm_idx; extern WList *g_ins_list; extern 
 static inline void wl_splice_all(WList *d, WIt pos, WList *s)
 {
   __CPROVER_assert(pos.l == d && pos.i >= 0 && pos.i <= d->len && d != s, "std::list::splice: position belongs to the destination");
-  for (int k = 0; k < 2; k++) {
-    if (s->w[k] >= 0) { __CPROVER_assert(d->w[k] < 0, "a slot is in one list only"); d->w[k] = pos.i + s->w[k]; }
-    else if (d->w[k] >= pos.i) d->w[k] += s->len;
-  }
+#define SA_K(k) if (s->w[k] >= 0) { __CPROVER_assert(d->w[k] < 0, "a slot is in one list only"); d->w[k] = pos.i + s->w[k]; } \
+                else if (d->w[k] >= pos.i) d->w[k] += s->len;
+  SA_K(0) SA_K(1)
   d->len += s->len; s->len = 0; s->w[0] = -1; s->w[1] = -1;
 }
 #define WLIST_SPLICE_ALL(d, pos, s) wl_splice_all(d, pos, s)
@@ -81,12 +78,11 @@ static inline void wl_splice_one(WList *d, WIt pos, WList *s, WIt it)
   __CPROVER_assert(pos.l == d && pos.i >= 0 && pos.i <= d->len, "std::list::splice: position belongs to the destination");
   __CPROVER_assert(it.l == s && it.i >= 0 && it.i < s->len && d != s, "std::list::splice: iterator is dereferenceable in the source");
   int moved = -1;
-  for (int k = 0; k < 2; k++) {
-    if (s->w[k] == it.i) { moved = k; s->w[k] = -1; }
-    else if (s->w[k] > it.i) s->w[k]--;
-  }
+#define SO_K(k) if (s->w[k] == it.i) { moved = k; s->w[k] = -1; } else if (s->w[k] > it.i) s->w[k]--;
+  SO_K(0) SO_K(1)
   s->len--;
-  for (int k = 0; k < 2; k++) if (d->w[k] >= pos.i) d->w[k]++;
+  if (d->w[0] >= pos.i) d->w[0]++;
+  if (d->w[1] >= pos.i) d->w[1]++;
   if (moved >= 0) { __CPROVER_assert(d->w[moved] < 0, "a slot is in one list only"); d->w[moved] = pos.i; }
   d->len++;
   g_rm_list = s; g_rm_idx = it.i; g_ins_list = d; g_ins_idx = pos.i;
@@ -103,8 +99,8 @@ static inline void wit_stable(WIt *v)
 void Slot_ctor(Slot *self);
 static inline void wl_emplace_back(WList *l)
 {
-  for (int k = 0; k < 2; k++)
-    if (!g_born[k] && nondet_bool()) { g_born[k] = 1; Slot_ctor(&g_S[k]); l->w[k] = l->len; l->len++; return; }
+#define EB_K(k) if (!g_born[k] && nondet_bool()) { g_born[k] = 1; Slot_ctor(&g_S[k]); l->w[k] = l->len; l->len++; return; }
+  EB_K(0) EB_K(1)
   l->len++;
 }
 #define WLIST_EMPLACE_BACK(l) wl_emplace_back(l)
@@ -113,7 +109,8 @@ void Slot_dtor(Slot *self);
 extern _Bool g_dead[2];
 static inline void wl_dtor(WList *l)
 {
-  for (int k = 0; k < 2; k++) if (l->w[k] >= 0) { Slot_dtor(&g_S[k]); g_dead[k] = 1; l->w[k] = -1; }
+#define LD_K(k) if (l->w[k] >= 0) { Slot_dtor(&g_S[k]); g_dead[k] = 1; l->w[k] = -1; }
+  LD_K(0) LD_K(1)
   l->len = 0;
 }
 #define WLIST_DTOR(l) wl_dtor(l)
@@ -129,36 +126,22 @@ static inline void wl_dtor(WList *l)
 
 /* ================================================================== representation invariant of the queue (G) */
 #define TAGQ FN_TAG(commonDtor, QueuedEvent)
-static inline _Bool wl_ok(const WList *l)
-{
-  return l->len >= 0 && l->len < (1L << 62) && l->w[0] >= -1 && l->w[0] < l->len && l->w[1] >= -1 && l->w[1] < l->len &&
-         (l->w[0] < 0 || l->w[0] != l->w[1]);
-}
-static inline _Bool slot_ok(int k)         /* dtor != nullptr  <=>  a payload is constructed in the slot */
-{ return (g_S[k].dtor != NULL) == g_cons[k] && (g_S[k].dtor == NULL || g_S[k].dtor == TAGQ); }
-static inline _Bool slot_queued(int k)     /* occupied, not dispatched yet, payload = what was enqueued */
-{ return g_born[k] && !g_dead[k] && g_cons[k] && g_S[k].dtor == TAGQ && g_disp[k] == 0 && !g_taken[k] && g_S[k].buffer.arguments.a0.id == g_argid[k]; }
-static inline _Bool slot_free(int k)
-{ return g_born[k] && !g_dead[k] && !g_cons[k] && g_S[k].dtor == NULL; }
-static inline _Bool q_ok(const Q *q)
-{
-  if (!wl_ok(&q->queueList) || !wl_ok(&q->freeList)) return 0;
-  if (q->queueEmptyCounter < 0 || q->queueNotifyCounter < 0 || q->queueEmptyCounter > 1000000 || q->queueNotifyCounter > 1000000) return 0;
-  if (q->queueListConditionVariable.notified < 0 || q->queueListConditionVariable.notified > (1 << 30)) return 0;
-  for (int k = 0; k < 2; k++) {
-    if (!g_born[k]) {                                                       /* a slot that does not exist yet is nowhere */
-      if (q->queueList.w[k] >= 0 || q->freeList.w[k] >= 0 || g_cons[k] || g_dead[k]) return 0;
-      continue;
-    }
-    if (!slot_ok(k)) return 0;
-    if (q->queueList.w[k] >= 0 && q->freeList.w[k] >= 0) return 0;          /* a slot is in one list only */
-    if (q->queueList.w[k] >= 0 && !slot_queued(k)) return 0;                /* queued slots hold their event */
-    if (q->freeList.w[k] >= 0 && !slot_free(k)) return 0;                   /* recycled slots are empty */
-  }
-  return 1;
-}
+/* written as macros so that loop invariants (which may not contain calls) can use them */
+#define WL_OK_M(l) ((l).len >= 0 && (l).len < (1L << 62) && (l).w[0] >= -1 && (l).w[0] < (l).len && (l).w[1] >= -1 && (l).w[1] < (l).len && ((l).w[0] < 0 || (l).w[0] != (l).w[1]))
+#define SLOT_OK_M(k)     (((g_S[k].dtor != NULL) == g_cons[k]) && (g_S[k].dtor == NULL || g_S[k].dtor == TAGQ))      /* dtor != nullptr <=> payload constructed */
+#define SLOT_QUEUED_M(k) (g_born[k] && !g_dead[k] && g_cons[k] && g_S[k].dtor == TAGQ && g_disp[k] == 0 && !g_taken[k] && \
+                          g_S[k].buffer.arguments.a0.id == g_argid[k] && g_S[k].buffer.event == (g_argid[k] ^ 0x2a))   /* holds exactly what was enqueued */
+#define SLOT_FREE_M(k)   (g_born[k] && !g_dead[k] && !g_cons[k] && g_S[k].dtor == NULL)
+#define Q_OK_K(q, k) (!g_born[k] ? ((q)->queueList.w[k] < 0 && (q)->freeList.w[k] < 0 && !g_cons[k] && !g_dead[k]) \
+                                 : (SLOT_OK_M(k) && !((q)->queueList.w[k] >= 0 && (q)->freeList.w[k] >= 0) && \
+                                    ((q)->queueList.w[k] < 0 || SLOT_QUEUED_M(k)) && ((q)->freeList.w[k] < 0 || SLOT_FREE_M(k))))
+#define Q_OK_M(q) (WL_OK_M((q)->queueList) && WL_OK_M((q)->freeList) && (q)->queueEmptyCounter >= 0 && (q)->queueNotifyCounter >= 0 && \
+                   (q)->queueEmptyCounter <= 1000000 && (q)->queueNotifyCounter <= 1000000 && \
+                   (q)->queueListConditionVariable.notified >= 0 && (q)->queueListConditionVariable.notified <= (1 << 30) && Q_OK_K(q, 0) && Q_OK_K(q, 1))
+static inline _Bool q_ok(const Q *q) { return Q_OK_M(q); }
 /* machine-arithmetic assumption: list lengths stay far below 2^62 (stated in evidence) */
-#define Q_SMALL(q) ((q)->queueList.len < (1L << 40) && (q)->freeList.len < (1L << 40) && (q)->queueListConditionVariable.notified < (1 << 29))
+#define Q_SMALL(q) ((q)->queueList.len < (1L << 40) && (q)->freeList.len < (1L << 40) && (q)->queueListConditionVariable.notified < (1 << 29) && (q)->queueEmptyCounter < 1000 && (q)->queueNotifyCounter < 1000)
+#define Q_MID(q) ((q)->queueList.len < (1L << 61) && (q)->freeList.len < (1L << 61) && (q)->queueListConditionVariable.notified < (1 << 29))
 #define NOLOCKS(q) ((q)->queueListMutex.depth == 0 && (q)->freeListMutex.depth == 0)
 #define INLIST(q, k) ((q)->queueList.w[k] >= 0 || (q)->freeList.w[k] >= 0)
 #define GHOSTS g_S[0], g_S[1], g_anon, g_cons[0], g_cons[1], g_argid[0], g_argid[1], g_disp[0], g_disp[1], g_seq, g_dseq[0], g_dseq[1], g_born[0], g_born[1], g_taken[0], g_taken[1], g_dead[0], g_dead[1], g_rm_list, g_rm_idx, g_ins_list, g_ins_idx
@@ -166,7 +149,7 @@ static inline _Bool q_ok(const Q *q)
 /* ================================================================== environment: user getEvent policy, predicate */
 #define CONTRACT_Pol_getEvent \
   __CPROVER_assigns() \
-  __CPROVER_ensures(__CPROVER_return_value == a0.id ^ 0x2a)        /* some fixed function of the argument VALUE */
+  __CPROVER_ensures(__CPROVER_return_value == (a0.id ^ 0x2a))        /* some fixed function of the argument VALUE */
 #define CONTRACT_UserPred_call \
   __CPROVER_assigns()
 #define CONTRACT_UserPred0_call \
@@ -183,11 +166,12 @@ extern _Bool g_in_processing;
 #define DD_K(k) (a0 == &g_S[k].buffer.event)
 #define CONTRACT_DispatcherBase_directDispatch \
   __CPROVER_requires(NOLOCKS(QQ) && q_ok(QQ)) \
-  __CPROVER_requires(DD_K(0) ==> (g_cons[0] && g_disp[0] == 0 && a1.id == g_argid[0] && *a0 == g_argid[0] ^ 0x2a)) \
-  __CPROVER_requires(DD_K(1) ==> (g_cons[1] && g_disp[1] == 0 && a1.id == g_argid[1] && *a0 == g_argid[1] ^ 0x2a)) \
+  __CPROVER_requires(DD_K(0) ==> (g_cons[0] && g_disp[0] == 0 && a1.id == g_argid[0] && *a0 == (g_argid[0] ^ 0x2a))) \
+  __CPROVER_requires(DD_K(1) ==> (g_cons[1] && g_disp[1] == 0 && a1.id == g_argid[1] && *a0 == (g_argid[1] ^ 0x2a))) \
   __CPROVER_requires(g_in_processing ==> QQ->queueEmptyCounter >= 1)            /* C11: seen as non-empty from inside a listener */ \
   __CPROVER_assigns(QQ->queueList, QQ->freeList, QQ->queueListConditionVariable.notified, GHOSTS) \
   __CPROVER_ensures(NOLOCKS(QQ) && q_ok(QQ) && g_seq > __CPROVER_old(g_seq)) \
+  __CPROVER_ensures(QQ->queueList.len < (1L << 61) && QQ->freeList.len < (1L << 61) && QQ->queueListConditionVariable.notified < (1 << 29))   /* sizes stay far below the machine limits (assumption) */ \
   __CPROVER_ensures(DD_K(0) ==> (g_disp[0] == 1 && g_dseq[0] == g_seq)) \
   __CPROVER_ensures(DD_K(1) ==> (g_disp[1] == 1 && g_dseq[1] == g_seq)) \
   __CPROVER_ensures(DD_INFLIGHT_SAME(0) && DD_INFLIGHT_SAME(1))
@@ -204,7 +188,7 @@ extern _Bool g_in_processing;
  * takes a recycled slot (or creates one), constructs the event in it, appends it at the END of queueList */
 #define CONTRACT_Q_doEnqueue \
   __CPROVER_requires(__CPROVER_is_fresh(self, sizeof(Q)) && __CPROVER_is_fresh(item, sizeof(QueuedEvent))) \
-  __CPROVER_requires(NOLOCKS(self) && q_ok(self) && Q_SMALL(self)) \
+  __CPROVER_requires(NOLOCKS(self) && q_ok(self) && Q_SMALL(self) && item->event == (item->arguments.a0.id ^ 0x2a)) \
   __CPROVER_assigns(self->queueList, self->freeList, self->queueListMutex.depth, self->freeListMutex.depth, item->arguments.a0.id, GHOSTS) \
   __CPROVER_ensures(NOLOCKS(self) && q_ok(self)) \
   __CPROVER_ensures(self->queueList.len == __CPROVER_old(self->queueList.len) + 1 && self->freeList.len == (__CPROVER_old(self->freeList.len) > 0 ? __CPROVER_old(self->freeList.len) - 1 : 0)) \
@@ -226,6 +210,35 @@ extern _Bool g_in_processing;
   __CPROVER_ensures(ENQ2_NEW_HOLDS(0) && ENQ2_NEW_HOLDS(1)) \
   __CPROVER_ensures((LV) ==> args->id == __CPROVER_old(args->id)) \
   __CPROVER_ensures((self->queueNotifyCounter == 0) ==> self->queueListConditionVariable.notified == __CPROVER_old(self->queueListConditionVariable.notified) + 1)
-#define ENQ2_NEW_HOLDS(k) (self->queueList.w[k] == __CPROVER_old(self->queueList.len) ==> (g_argid[k] == __CPROVER_old(args->id) && g_S[k].buffer.event == __CPROVER_old(args->id) ^ 0x2a && g_S[k].buffer.arguments.a0.id == __CPROVER_old(args->id)))
+#define ENQ2_NEW_HOLDS(k) (self->queueList.w[k] == __CPROVER_old(self->queueList.len) ==> (g_argid[k] == __CPROVER_old(args->id) && g_S[k].buffer.event == (__CPROVER_old(args->id) ^ 0x2a) && g_S[k].buffer.arguments.a0.id == __CPROVER_old(args->id)))
 #define CONTRACT_Q_enqueue ENQ_CONTRACT(1)
 #define CONTRACT_Q_enqueue_2 ENQ_CONTRACT(0)
+
+
+/* ================================================================== process (eventqueue.h:206)
+ * statement: every event queued when the call takes the batch is dispatched exactly once, in queue order, exactly as
+ * it was enqueued; its slot is recycled; events enqueued meanwhile stay queued; result = "dispatched something";
+ * the queue reports non-empty while the batch is in flight (queueEmptyCounter, C11) and the counter is restored. */
+#define INFLIGHT(q, k) ((q)->queueList.w[k] < 0 && (q)->freeList.w[k] < 0)
+#define DONE_M(k) (g_born[k] && !g_dead[k] && g_disp[k] == 1 && !g_cons[k] && g_S[k].dtor == NULL && !g_taken[k] && g_dseq[k] <= g_seq)
+#define PROC_W(T, i, k) ((T).w[k] >= 0 ==> (INFLIGHT(self, k) && ((T).w[k] < (i) ? DONE_M(k) : SLOT_QUEUED_M(k))))
+#define PROC_FIFO(T, i) (((T).w[0] >= 0 && (T).w[1] >= 0 && (T).w[0] < (T).w[1] && (T).w[1] < (i)) ==> g_dseq[0] < g_dseq[1]) && \
+                        (((T).w[0] >= 0 && (T).w[1] >= 0 && (T).w[1] < (T).w[0] && (T).w[0] < (i)) ==> g_dseq[1] < g_dseq[0])
+#define LOOP_CONTRACT_Q_process__loop0 \
+  __CPROVER_assigns(__begin_L0.i, self->queueList, self->freeList, self->queueListConditionVariable.notified, GHOSTS) \
+  __CPROVER_loop_invariant(0 <= __begin_L0.i && __begin_L0.i <= tempList.len) \
+  __CPROVER_loop_invariant(NOLOCKS(self) && Q_OK_M(self) && Q_MID(self)) \
+  __CPROVER_loop_invariant(PROC_W(tempList, __begin_L0.i, 0) && PROC_W(tempList, __begin_L0.i, 1)) \
+  __CPROVER_loop_invariant(PROC_FIFO(tempList, __begin_L0.i)) \
+  __CPROVER_decreases(tempList.len - __begin_L0.i)
+#define PROC_POST(k) (__CPROVER_old(self->queueList.w[k]) >= 0 ==> (DONE_M(k) && self->freeList.w[k] >= 0))
+#define CONTRACT_Q_process \
+  __CPROVER_requires(__CPROVER_is_fresh(self, sizeof(Q))) \
+  __CPROVER_requires(NOLOCKS(self) && q_ok(self) && Q_SMALL(self) && g_in_processing) \
+  __CPROVER_requires(g_b0 == (self->queueList.w[0] >= 0 && self->queueList.w[1] >= 0 && self->queueList.w[0] < self->queueList.w[1])) \
+  __CPROVER_requires(g_b1 == (self->queueList.w[0] >= 0 && self->queueList.w[1] >= 0 && self->queueList.w[1] < self->queueList.w[0])) \
+  __CPROVER_assigns(self->queueList, self->freeList, self->queueListMutex.depth, self->freeListMutex.depth, self->queueEmptyCounter, self->queueListConditionVariable.notified, GHOSTS) \
+  __CPROVER_ensures(NOLOCKS(self) && q_ok(self) && self->queueEmptyCounter == __CPROVER_old(self->queueEmptyCounter)) \
+  __CPROVER_ensures(__CPROVER_return_value == (__CPROVER_old(self->queueList.len) > 0)) \
+  __CPROVER_ensures(PROC_POST(0) && PROC_POST(1)) \
+  __CPROVER_ensures((g_b0 ==> g_dseq[0] < g_dseq[1]) && (g_b1 ==> g_dseq[1] < g_dseq[0]))
